@@ -377,13 +377,30 @@ fn convert<'gc, T: ?Sized + Tgt<'gc>>(
     }
     let stashable = matches!(step(mc, root.set, Step::Stash, cur), StepRes::Ok(_));
     let same = cur.addr() == a0 && ptr_eq_any(cur.erased(), init.erased());
+    // dereference through the final pointer: how many tokens of the original value it reads
+    let readable = if cur.is_weak() {
+        if state == State::Live { cur.try_upgrade(mc).flatten() } else { None }
+    } else {
+        Some(cur)
+    };
+    let read = match readable {
+        None => "-".to_string(),
+        Some(r) => match r.check_deref(e) {
+            Ok(()) => match r {
+                Sh::Unit(_) | Sh::UnitThin(_) => "0".to_string(),
+                _ => T::tokens(e).to_string(),
+            },
+            Err(_) => "bad".to_string(),
+        },
+    };
     let line = format!(
-        "ok final={} words={} dlen={} same={} state={}",
+        "ok final={} words={} dlen={} same={} state={} read={}",
         cur.tags(),
         cur.words(),
         cur.dlen(),
         if same { 1 } else { 0 },
-        state.name()
+        state.name(),
+        read
     );
     let mut handle = None;
     let mut slot_weak = false;
@@ -785,7 +802,12 @@ pub fn run_case<F: Fam>(spec: &Spec, out: &mut CaseOut) {
     if w.frees != 1 {
         out.mon(format!("after dropping the arena the block was released {} time(s)", w.frees));
     }
-    let dr = format!("drops={}+{}", info.at_alloc, obs_end.value_entries.saturating_sub(info.at_alloc));
+    // the destructor log names the type every destructor ran as
+    let mut tags: Vec<&'static str> = drops().iter().map(|d| d.0).filter(|t| *t != "Leaf").collect();
+    tags.sort();
+    tags.dedup();
+    let ran_as = if tags.is_empty() { "-".to_string() } else { tags.join("+") };
+    let dr = format!("drops={}+{} as={}", info.at_alloc, obs_end.value_entries.saturating_sub(info.at_alloc), ran_as);
     out.answer = Some(if conv.chain_done {
         let up = match up_after {
             None => "na",
